@@ -44,9 +44,23 @@ def order_matrix(d, s, dde):
     return dde if dde > 0 else 1
 
 
-def expand(flat, dde, drv=None, path="scalar"):
+def expand(flat, dde, drv=None, path="scalar", dt=None):
     """the explicitly written augmented system: -> (flat circuit with chain nodes, info)"""
     fl = copy.deepcopy(flat)
+    if drv is not None and dt is not None and path == "scalar":
+        # how the Lean model of `_add_edge_buffer` realises every delayed edge (chain / ring buffer / pass-through) must be what this oracle does with it
+        de = [e for e in fl["edges"] if e.get("delay") is not None]
+        if de:
+            kinds = drv.ask({"comp": "gamma", "slots": [[e["delay"], e.get("spread") or "0"] for e in de], "dde": dde, "path": "scalar", "dt": C.q2s(F(dt))})["kinds"]
+            for e, k in zip(de, kinds):
+                chain = e.get("spread") is not None or dde > 0
+                n = order_scalar(F(e["delay"]), F(e.get("spread") or 0), dde) if chain else 0
+                D = py_round_half_even(F(e["delay"]) / F(dt))
+                want = {"kind": "chain", "order": n, "rate": C.q2s(F(n) / F(e["delay"]))} if n > 0 else ({"kind": "ring", "steps": D} if D > 1 else {"kind": "through"})
+                if k != want:
+                    raise C.HarnessError("Lean slot classification and the oracle disagree: " + json.dumps([e, k, want]))
+                if chain and n == 0 and D > 1:
+                    e.pop("spread", None)          # order 0 with a representable delay: a pure (ring-buffer) delay, handled as a plain delayed edge below
     by_src = {}
     for i, e in enumerate(fl["edges"]):
         if e.get("delay") is not None and (e.get("spread") is not None or dde > 0):
@@ -95,7 +109,7 @@ def expand(flat, dde, drv=None, path="scalar"):
 
 def oracle_aug(case, drv=None):
     flat = M.flatten(case["mdl"])
-    aug, info = expand(flat, case.get("dde", 0), drv)
+    aug, info = expand(flat, case.get("dde", 0), drv, dt=case["run"]["dt"])
     return aug, info
 
 
